@@ -92,6 +92,7 @@ def run(ctx):
     ctx.guard(rule_g, ctx, ix)
     ctx.guard(rule_h, ctx, ix)
     ctx.guard(rule_i, ctx, ix)
+    ctx.guard(rule_j, ctx, ix)
 
 
 # ---------------------------------------------------------------------------------------
@@ -126,6 +127,15 @@ def rule_a(ctx, ix):
 
 def _dispatch_shape(ctx, R, f, dunder, what):
     body = body_stmts(f.node)
+    # a dispatch that only fronts a helper of the class (a memo, a wrapper): the shape is that of the helper it hands the
+    # object / record to
+    if f.cls is not None and not any(isinstance(n, ast.For) for n in walk_no_nested(f.node)):
+        for c in calls_in(f.node, nested=True):
+            if isinstance(c.func, ast.Attribute) and unparse(c.func.value) == f.self_name and len(f.params) > 1 and \
+                    any(unparse(a) == f.params[1] for a in c.args):
+                h = f.cls.resolve_func(c.func.attr)
+                if h is not None and h is not f and any(isinstance(n, ast.For) for n in walk_no_nested(h.node)):
+                    return _dispatch_shape(ctx, R, h, dunder, what)
     # (1) the method test dominates the registry loop
     loops = [n for n in walk_no_nested(f.node) if isinstance(n, ast.For)]
     mro_loops = [lp for lp in loops if isinstance(lp.iter, ast.Call) and isinstance(lp.iter.func, ast.Attribute)
@@ -783,3 +793,84 @@ def rule_i(ctx, ix):
                               'same rows' % (f.construct, unparse(mixed[0])[:100] if mixed else ''), where=where(f, owner))
     if n < 3:
         raise AnalysisError('C02.i: only %d key-join loaders recognised' % n)
+
+
+def rule_j(ctx, ix):
+    """Two registries of the (un)serialiser that every restored reference goes through: the names handed out on save are unique
+    (a name is only registered after it was found free), and the list of deferred loader callbacks survives re-entrant loads
+    (callbacks run loaders, which register further callbacks and run the list again: it is edited in place, never rebound)."""
+    from .. import cond
+    R = 'C02.j'
+    ctx.describe(R, 'serialiser names are registered only when free; the deferred-callback list is never rebound while callbacks run', floor=3)
+    ser = ix.cls('glue.core.state.GlueSerializer')
+    f = ser.resolve_func('id')
+    if f is None:
+        raise AnalysisError('GlueSerializer.id vanished')
+    s_ = f.self_name
+    stores = [st for st in walk_no_nested(f.node) if isinstance(st, ast.Assign) and isinstance(st.targets[0], ast.Subscript)
+              and unparse(st.targets[0].value) == '%s._objs' % s_]
+    if len(stores) != 1:
+        raise AnalysisError('GlueSerializer.id: the registration of the name is not recognised')
+    name = unparse(stores[0].targets[0].slice)
+    asserted = any(isinstance(a, ast.Assert) and a.lineno < stores[0].lineno and
+                   cond.equivalent(cond.formula(a.test), cond.Not(cond.T('in|%s|%s._objs' % (name, s_))))
+                   for a in walk_no_nested(f.node))
+    # or: every way the name is produced has checked it against the registry
+    dis = ser.resolve_func('_disambiguate')
+    checked = False
+    if dis is not None:
+        ds = dis.self_name
+        rets = [r for r in returns_of(dis) if r.value is not None]
+        checked = bool(rets)
+        for r in rets:
+            pc = cond.path_condition(dis.node, r, expand=False) or ('const', True)
+            free = cond.Not(cond.T('in|%s|%s._objs' % (unparse(r.value).replace(' ', ''), ds)))
+            try:
+                if not cond.implies(pc, free):
+                    checked = False
+            except ValueError:
+                checked = False
+        lab = ser.resolve_func('_label')
+        via = lab is not None and all(isinstance(r.value, ast.Call) and call_name(r.value) == '_disambiguate' or isinstance(r.value, ast.Constant)
+                                      for r in returns_of(lab) if r.value is not None)
+        checked = checked and via and any(isinstance(st, ast.Assign) and unparse(st.targets[0]) == name and isinstance(st.value, ast.Call)
+                                          and call_name(st.value) == '_label' for st in walk_no_nested(f.node))
+    ctx.ob(R, f.construct, 'a name is registered only after it was found to be free (asserted here, or guaranteed by every return of _disambiguate)',
+           asserted or checked,
+           detail='GlueSerializer.id registers `%s` without it having been checked against the names already handed out (no dominating '
+                  'assert, and _disambiguate can return a name it did not look up): two objects can get one name, and the second '
+                  'silently replaces the first in the saved session' % name, where=where(f, stores[0]))
+    un = ix.cls('glue.core.state.GlueUnSerializer')
+    appends = 0
+    runs_callbacks = []
+    for nm, mem in sorted(un.members.items()):
+        g = mem.func
+        if g is None or g.cls is not un:
+            continue
+        gs = g.self_name
+        for c in calls_in(g.node):
+            if call_name(c) in ('append', 'extend', 'insert') and unparse(c.func.value) == '%s._callbacks' % gs:
+                appends += 1
+        for st in walk_no_nested(g.node):
+            if isinstance(st, (ast.Assign, ast.AugAssign)):
+                tg = st.targets if isinstance(st, ast.Assign) else [st.target]
+                for t in tg:
+                    for e in (t.elts if isinstance(t, (ast.Tuple, ast.List)) else [t]):
+                        if unparse(e) == '%s._callbacks' % gs and nm != '__init__':
+                            runs_callbacks.append((g, st))
+    if not appends:
+        raise AnalysisError('GlueUnSerializer: no registration of deferred callbacks found')
+    ctx.ob(R, un.construct + '._callbacks', 'the deferred-callback list is bound once, in __init__ (callbacks are added and removed in place)',
+           not runs_callbacks,
+           detail='%s rebinds the deferred-callback list with `%s`: a callback that loads further objects runs the list again and registers '
+                  'new callbacks on the old list object, which are lost when the outer pass rebinds the field - a restored selection '
+                  'keeps a name string where its dataset should be' % ((runs_callbacks[0][0].construct, norm(runs_callbacks[0][1])) if runs_callbacks else ('', '')),
+           where=where(runs_callbacks[0][0], runs_callbacks[0][1]) if runs_callbacks else un.where)
+    tc = un.resolve_func('_try_callbacks')
+    if tc is not None:
+        from ..util import elementwise
+        its = [n for n in walk_no_nested(tc.node) if isinstance(n, ast.For)]
+        live = [n for n in its if unparse(n.iter) == '%s._callbacks' % tc.self_name]
+        removes = any(call_name(c) in ('remove', 'pop') and '_callbacks' in unparse(c.func) for c in calls_in(tc.node))
+        ctx.ob(R, tc.construct, 'the pass over the callbacks iterates a snapshot when it removes from the list', not (live and removes),
+               detail='_try_callbacks removes callbacks from the list it is iterating: every other callback is skipped', where=tc.where)
